@@ -165,6 +165,39 @@ func (do *ObjectContainer) CloneFor(other ILocatorCloner) {
 	cloneItemAwareMap(do.properties, &out.properties)
 }
 
+// carryOver hands the items of do over to other, which takes its place in
+// the same locator: the items themselves, not copies of them. An item other
+// declares itself takes the value over instead, as CloneFor has it.
+func (do *ObjectContainer) carryOver(other *ObjectContainer) {
+	other.mu.Lock()
+	defer other.mu.Unlock()
+
+	do.mu.RLock()
+	defer do.mu.RUnlock()
+
+	for _, maps := range [][2]map[string]IItemAware{
+		{do.dataObjectsByName, other.dataObjectsByName},
+		{do.dataObjects, other.dataObjects},
+		{do.dataObjectReferencesByName, other.dataObjectReferencesByName},
+		{do.dataObjectReferences, other.dataObjectReferences},
+		{do.propertiesByName, other.propertiesByName},
+		{do.properties, other.properties},
+	} {
+		for name, item := range maps[0] {
+			own, declared := maps[1][name]
+			if !declared {
+				maps[1][name] = item
+				continue
+			}
+			from, ok1 := item.(ILocatorCloner)
+			to, ok2 := own.(ILocatorCloner)
+			if ok1 && ok2 {
+				from.CloneFor(to)
+			}
+		}
+	}
+}
+
 type HeaderContainer struct {
 	DefaultItemAwareLocator
 	items map[string]IItemAware
@@ -378,8 +411,14 @@ func ElementToLocator(locator IFlowDataLocator, idGenerator id.IGenerator, eleme
 
 	dol, found := locator.FindIItemAwareLocator(LocatorObject)
 	if found {
-		cloneFor, ok := dol.(ILocatorCloner)
-		if ok {
+		if enclosing, ok := dol.(*ObjectContainer); ok {
+			// The locator already holds the items of the enclosing scopes (this
+			// element is a sub-process): they are carried over as they are.
+			// Copies would separate the entry an item has under its id from
+			// the one it has under its name, and a data output (stored by
+			// name) would never reach a data input (read by id).
+			enclosing.carryOver(dataObjectContainer)
+		} else if cloneFor, ok := dol.(ILocatorCloner); ok {
 			cloneFor.CloneFor(dataObjectContainer)
 		}
 	}
